@@ -30,6 +30,25 @@ for r in fr['results']:
     out.append("| %s | %s | %s quick | %s |"%(r['commit'], r['subject'].replace('fix: ',''), r['check'], '; '.join('`%s`'%s[:80].replace('|','\\|') for s in r['signatures'][:2])))
 out.append("")
 txt='\n'.join(out)+'\n'+open(V+'/seeded/own-mutants-c15.md').read()
+ms=V+'/seeded/mutation-sweep.json'
+if os.path.exists(ms):
+    d=json.load(open(ms))
+    o=["", "### 9.4 Automated first-order mutants of the anchored functions (`bin/mutation_sweep.py`)\n"]
+    sm=d['summary']
+    o.append("One operator applied at one place (a relational or logical operator flipped, a condition negated, a boolean literal flipped) in the functions the properties' anchors name, three per function, %d mutants that build (base commit %s). For each the quick tier of the properties anchored at that function ran against a scratch worktree (`VERIF_REPO`); for those no check reported, the repository's own suite ran. **%d caught by a check, %d missed by the mapped checks but caught by the suite, %d survive both.** Every survivor and every suite-only mutant was read; five of them were gaps, closed since (marked GAP), four were caught by a check the sweep had not mapped to that function, the rest are equivalent, touch error paths only, or move the endpoint to the safe side of a property.\n" % (len(d['mutants']), d.get('base_commit','?'), sm.get('caught',0), sm.get('missed-suite-catches',0), sm.get('SURVIVES-BOTH',0)))
+    o.append("| mutant | function | status | verdict |")
+    o.append("|---|---|---|---|")
+    for m in d['mutants']:
+        if m['status']=='caught' or m['status']=='does-not-build':
+            continue
+        o.append("| `%s:%d` %s | %s | %s | %s |"%(m['file'].split('/')[-1], m['line'], m['op'].replace('|','\\|'), m['func'], {'SURVIVES-BOTH':'survives both','missed-suite-catches':'suite only'}[m['status']], m.get('triage','(not triaged)')))
+    byp={}
+    for m in d['mutants']:
+        if m['status']=='caught':
+            byp[m['caught_by']]=byp.get(m['caught_by'],0)+1
+    o.append("")
+    o.append("Caught mutants by reporting check: "+', '.join("%s %d"%(k,v) for k,v in sorted(byp.items()))+".\n")
+    txt+='\n'.join(o)+'\n'
 s=open(V+'/DESIGN.md').read()
 a=s.index('## 9. Sensitivity'); b=s.index('## Appendix A')
 open(V+'/DESIGN.md','w').write(s[:a]+txt+'\n'+s[b:])
